@@ -665,7 +665,9 @@ ComposeScalar ==
     /\ UNCHANGED <<mi, dt, doc0, open, nalias, phase, stack, ret, log, res, visited, shared>>
 
 ComposeOpen ==
-    /\ CanAdd /\ ~ExpectKey
+    \* a collection in key position (`? [a] : v`) only for the class models that
+    \* ask for it (ckeys); elsewhere collections reach key position as aliases
+    /\ CanAdd /\ (~ExpectKey \/ Mod.ckeys)
     /\ \E kt \in {<<"q", Mod.qtags[i]>> : i \in DOMAIN Mod.qtags} \cup
                  {<<"m", Mod.mtags[i]>> : i \in DOMAIN Mod.mtags} :
          LET id == NewId(heap) IN
